@@ -240,6 +240,10 @@ func c15(r *hx.Run) {
 		if rng.UintN(2) == 0 {
 			q = rep{false, 0}
 		}
+		if i%2 == 0 { // half of the random scripts are fully successful devices with a random quote size
+			rp, q, st = rep{false, 0}, rep{false, 0}, 0
+			ol = 1 + uint32(rng.UintN(labi.ReqBufSize))
+		}
 		runDev(devScript{rp.err, rp.res, report, q.err, q.res, st, ol, buf}, spec, rd, fmt.Sprintf("@pat:%d:%d:%d", labi.TdReportSize, a, c))
 	}
 	// quote provider
